@@ -214,6 +214,55 @@ theorem close_never_forgotten (p : Params) (ha hb : Bool) (ra rb : List AppOp) (
   armedS_run evs _ ⟨fun _ h _ => by simp [Sys.init, Conn.fresh] at h, fun _ h _ => by simp [Sys.init, Conn.fresh] at h⟩
 
 
+/-! ### reactors that report ONE condition per dispatch (select `_doReadOrWrite(selectable, "doRead" | "doWrite")`,
+asyncio `_readOrWrite(selectable, read)`)
+
+Their dispatch is the single-bit special case of the modelled one: a report with only IN set is `doRead` followed —
+if it answered a reason — by `_disconnectSelectable(…, isRead = True)`; a report with only OUT set is `doWrite` followed
+by `_disconnectSelectable(…, isRead = False)`; nothing happens for a condition that is not registered.  So every
+theorem above (all schedules) covers these reactors, and a CONNECTION_DONE answered by `doWrite` is
+`connectionLost(ConnectionDone)` there too — never `readConnectionLost`.  The sim plays 30% of its schedules through the
+REAL `SelectReactor._doReadOrWrite` / `AsyncioSelectorReactor._readOrWrite` against exactly these events.
+(Not proved: termination of the single-bit drain `runSel` of the driver — the progress measure of `Fair.lean` is
+stated for the poll-like `fairRound`; the sim checks quiescence at the end of every such drain.) -/
+
+theorem singleBit_read_dispatch (p : Params) (v : View) (nr nw : Nat)
+    (hr : v.c.reading = true) (hs : v.c.hasSocket = true) :
+    ((doRead p v nr).1 = none → io p v true false false nr nw = (doRead p v nr).2) ∧
+    (∀ w, (doRead p v nr).1 = some w →
+      io p v true false false nr nw = disconnectSelectable (doRead p v nr).2 w true) := by
+  constructor
+  · intro h; simp [io, readThenWrite, hr, hs, h]
+  · intro w h; simp [io, readThenWrite, hr, hs, h]
+
+theorem singleBit_write_dispatch (p : Params) (v : View) (nr nw : Nat)
+    (hw : v.c.writing = true) (hs : v.c.hasSocket = true) :
+    ((doWrite p v nw).1 = none → io p v false true false nr nw = (doWrite p v nw).2) ∧
+    (∀ w, (doWrite p v nw).1 = some w →
+      io p v false true false nr nw = disconnectSelectable (doWrite p v nw).2 w false) := by
+  constructor
+  · intro h; simp [io, readThenWrite, hw, hs, h]
+  · intro w h; simp [io, readThenWrite, hw, hs, h]
+
+theorem singleBit_unregistered (p : Params) (v : View) (nr nw : Nat) :
+    (v.c.reading = false → io p v true false false nr nw = v) ∧
+    (v.c.writing = false → io p v false true false nr nw = v) := by
+  constructor <;> intro h <;> simp [io, h]
+
+theorem singleBit_done_from_doWrite_is_connectionLost (p : Params) (v : View) (nr nw : Nat)
+    (hw : v.c.writing = true) (hs0 : v.c.hasSocket = true)
+    (hd : (doWrite p v nw).1 = some .done) (hs : (doWrite p v nw).2.c.hasSocket = true) :
+    let v1 := (doWrite p v nw).2
+    let v' := io p v false true false nr nw
+    v'.c.lost = v1.c.lost ++ [.done] ∧ v'.c.readLost = v1.c.readLost ∧ v'.c.hasSocket = false ∧ v'.k.closed = true := by
+  intro v1 v'
+  have h := done_from_doWrite_is_connectionLost p v false nr nw (by simp) (by simpa using hd) (by simpa using hs)
+  have e : v' = readThenWrite p v false true nr nw := by
+    show io p v false true false nr nw = _
+    simp [io, hw, hs0]
+  rw [e]
+  simpa using h
+
 /-! ### the liveness / clean-close half, under the one-closer discipline -/
 set_option linter.unusedSimpArgs false
 
@@ -471,6 +520,13 @@ def flushing : Conn :=
   { disconnecting := true, writing := true, reading := false, dataBuffer := [7, 8], accepted := [7, 8] }
 
 example : (doWrite tiny ⟨flushing, {}, {}⟩ 9).1 = some .done := by decide
+
+-- single-condition dispatch: a half-closeable closer's CONNECTION_DONE (out of doWrite) is connectionLost, not readConnectionLost
+example : let v' := io tiny ⟨{ flushing with halfCloseable := true }, {}, {}⟩ false true false 9 9
+    v'.c.lost = [.done] ∧ v'.c.readLost = 0 ∧ v'.k.closed = true := by decide
+-- … and a half-closeable reader's EOF (out of doRead) is readConnectionLost, not connectionLost
+example : let v' := io tiny ⟨{ (Conn.fresh true []) with }, { inFin := true }, {}⟩ true false false 9 9
+    v'.c.lost = [] ∧ v'.c.readLost = 1 := by decide
 
 /-! non-vacuity of the liveness theorems: the demo schedules are disciplined (hypotheses hold), the measure is a
     concrete number, and the conclusions are the non-trivial values computed above -/
